@@ -8,6 +8,7 @@ import (
 	"bytes"
 	"errors"
 	"fmt"
+	"math"
 	"regexp"
 	"sort"
 	"strings"
@@ -55,6 +56,8 @@ func (a *Operator) Run(input string) (string, error) {
 func (a *Operator) assemble(assembleParser *parser.Parser, input *bytes.Buffer) (string, error) {
 	fileScanner := bufio.NewScanner(bytes.NewReader(input.Bytes()))
 	fileScanner.Split(bufio.ScanLines)
+	// lines can be longer than the scanner's default limit of 64 KiB
+	fileScanner.Buffer(nil, math.MaxInt)
 	processor = processors.NewAssemble(a.ctx)
 	processorStack.push(processor)
 
